@@ -57,6 +57,31 @@ func (e *Engine) verifrtExternal(name string) externalFn {
 			ex.assume(mkApp("str.in_re", SBool, t, alphabetRe(alphabet)))
 			return sym{t, types.String}
 		}
+	case "Chars":
+		// a string of exactly n symbolic characters drawn from alphabet ("" = printable ASCII):
+		// a character sequence (each character an Int code input), no string-theory variable
+		return func(fr *frame, a []value) value {
+			ex := fr.i.ex
+			name, n, alphabet := a[0].(string), a[1].(int), a[2].(string)
+			cs := make([]*Term, n)
+			for i := 0; i < n; i++ {
+				c := ex.newInput(fmt.Sprintf("%s.c%d", name, i), SInt, types.Uint8)
+				if alphabet == "" {
+					ex.assume(tAnd(tCmp(">=", c, mkInt64(0x20)), tCmp("<=", c, mkInt64(0x7e))))
+				} else {
+					var alts []*Term
+					for j := 0; j < len(alphabet); j++ {
+						alts = append(alts, tEq(c, mkInt64(int64(alphabet[j]))))
+					}
+					ex.assume(tOr(alts...))
+				}
+				cs[i] = c
+			}
+			if n == 0 {
+				return ""
+			}
+			return valueOfTerm(seqStr(cs), types.String)
+		}
 	case "Choice":
 		return func(fr *frame, a []value) value {
 			ex := fr.i.ex
@@ -333,6 +358,7 @@ func (ex *exec) assertion(c value, label string) {
 					m2[k] = v
 				}
 				kr.Model = m2
+				kr.Sched = append([]string{}, ex.sched.log...)
 				ex.res.Asserts = append(ex.res.Asserts, kr)
 			} else if r2 == Unknown {
 				kr := rec
